@@ -138,9 +138,9 @@ class Frame:
 
 class Path:
     def __init__(s):
-        s.frames = []; s.pc = []; s.last = None; s.mem = None; s.sp = 0; s.errno_addr = None; s.nsym = 0
+        s.frames = []; s.pc = []; s.last = None; s.mem = None; s.sp = 0; s.errno_addr = None; s.nsym = 0; s.nmem = 0
     def fork(s):
-        p = Path(); p.frames = [f.fork() for f in s.frames]; p.pc = list(s.pc); p.last = s.last; p.nsym = s.nsym
+        p = Path(); p.frames = [f.fork() for f in s.frames]; p.pc = list(s.pc); p.last = s.last; p.nsym = s.nsym; p.nmem = s.nmem
         if hasattr(s, 'tls'): p.tls = dict(s.tls)
         if hasattr(s, 'alloc_cnt'): p.alloc_cnt = dict(s.alloc_cnt)
         if hasattr(s, 'tls_dtors'): p.tls_dtors = list(s.tls_dtors)
@@ -369,6 +369,7 @@ class Engine:
         e = Ev(); e.id = len(s.events); e.tid = s.tid; e.kind = kind; e.addr = addr; e.size = size; e.val = val
         e.order = order; e.guard = list(p.pc); e.parent = p.last; e.depth = 0
         e.rmw = None; e.text = text; e.full = False; e.init_val = None; e.fx = None; e.aset = None; e.dom = 0; e.wof = None; e.seq = None; e.lab = None
+        e.seq = p.nmem
         s.events.append(e); p.last = e
         return e
 
@@ -555,6 +556,7 @@ class Engine:
             f.symexit |= g.symexit
         m.nsym = max(p.nsym for p in group) + 1
         m.nnd = max(getattr(p, 'nnd', 0) for p in group)
+        m.nmem = s.merge_scalar([p.nmem for p in group], conds)
         s.merge_alloc_cnt(m, group)
         s.merge_alloc_cnt(m, group)
         s.merge_mem(m, group, conds)
@@ -562,6 +564,12 @@ class Engine:
         m.last = s.join_node(m, [p.last for p in group])
         s.stats['merges'] = s.stats.get('merges', 0) + 1
         return m
+
+    def merge_scalar(s, vals, conds):
+        if all(is_c(v) and v == vals[0] for v in vals): return vals[0]
+        v = vals[-1]
+        for x, c in zip(reversed(vals[:-1]), reversed(conds[:-1])): v = s.ite_b(c, x, v, 64)
+        return v
 
     def merge_alloc_cnt(s, m, group):
         cnt = {}
@@ -651,6 +659,7 @@ class Engine:
         m.last = s.join_node(m, [p.last for p in group])
         m.nsym = max(p.nsym for p in group) + 1
         m.nnd = max(getattr(p, 'nnd', 0) for p in group)
+        m.nmem = s.merge_scalar([p.nmem for p in group], conds)
         s.merge_alloc_cnt(m, group)
         return (m, rv)
 
@@ -1172,9 +1181,22 @@ class Engine:
         if z3.is_false(r): return 0
         return z3.If(r, z3.BitVecVal(1, 1), z3.BitVecVal(0, 1))
 
+    SCHED_CALLS = ('llvm.memcpy', 'llvm.memmove', 'llvm.memset', 'vf_futex_wait', 'vf_futex_wake_one', 'vf_futex_wake_all', 'syscall',
+                   'pthread_mutex_lock', 'pthread_mutex_unlock')
+
+    def is_sched_point(s, ins):
+        """instructions before which tools/instrument.py inserts a scheduling point in the native replay build"""
+        if ins.op in ('load', 'store', 'atomicrmw', 'cmpxchg', 'fence'): return True
+        if ins.op == 'call' and isinstance(ins.callee, GlobalRef):
+            n = ins.callee.name[1:]
+            return n.startswith(s.SCHED_CALLS)
+        return False
+
     def step(s, p, f, ins):
         op = ins.op; R = f.regs
         V = lambda x, t=None: s.val(p, x, t)
+        if s.phase == 'threads' and s.is_sched_point(ins):
+            p.nmem = p.nmem + 1 if is_c(p.nmem) else simp(p.nmem + 1)
         if op in BINOPS:
             t = resolve(ins.ty)
             if isinstance(t, FloatTy): R[ins.res] = s.fresh('fp', t.bits); return
@@ -1380,7 +1402,8 @@ class Engine:
             if not outs: return 'end'
             m, rv = s.merge(p, outs)
             keep_frames = p.frames
-            p.pc = m.pc; p.mem = m.mem; p.sp = m.sp; p.last = m.last; p.errno_addr = m.errno_addr; p.nsym = m.nsym
+            p.pc = m.pc; p.mem = m.mem; p.sp = m.sp; p.last = m.last; p.errno_addr = m.errno_addr; p.nsym = m.nsym; p.nmem = m.nmem
+            if hasattr(m, 'nnd'): p.nnd = m.nnd
             if ins.res is not None: f.regs[ins.res] = rv
             return
         r = s.stub(p, f, ins, name, args)
@@ -1518,7 +1541,7 @@ class Engine:
         if n == 'vf_nondet64':
             v = s.fresh('nd', 64)
             k = getattr(p, 'nnd', 0); p.nnd = k + 1                 # position of this call along its path (native replay order)
-            s.__dict__.setdefault('nd_info', {})[str(v)] = (list(p.pc), k, v)
+            s.__dict__.setdefault('nd_info', {})[str(v)] = (list(p.pc), k, v, s.tid)
             return v
         if n == 'syscall':
             # the default SchedInterface: syscall(__NR_futex, addr, FUTEX_WAIT|WAKE | FUTEX_PRIVATE_FLAG, val[, timeout])
@@ -2051,8 +2074,9 @@ class Engine:
             if v is not None and not is_c(v): v = m.eval(v, model_completion=True).as_long()
             a = e.addr
             if a is not None and not is_c(a): a = m.eval(a, model_completion=True).as_long()
-            out.append(dict(clk=c, tid=e.tid, kind=e.kind, order=e.order, addr=a, size=e.size, val=v, eid=e.id,
-                            seq=getattr(e, 'seq', None), fx=e.fx))
+            sq = e.seq
+            if sq is not None and not is_c(sq): sq = m.eval(sq, model_completion=True).as_long()
+            out.append(dict(clk=c, tid=e.tid, kind=e.kind, order=e.order, addr=a, size=e.size, val=v, eid=e.id, seq=sq, fx=e.fx))
         nd = {}
         for d in m.decls():
             nm = d.name()
@@ -2061,8 +2085,8 @@ class Engine:
                 nd[nm] = v.as_long() if z3.is_bv_value(v) else bool(z3.is_true(v))
         # nondet inputs actually consumed by this execution, in call order along the executed path
         seqd = []
-        for name, (pc, k, var) in getattr(s, 'nd_info', {}).items():
+        for name, (pc, k, var, tid) in getattr(s, 'nd_info', {}).items():
             if all(z3.is_true(m.eval(c, model_completion=True)) for c in pc):
-                seqd.append((k, int(name.rsplit('_', 1)[1]), m.eval(var, model_completion=True).as_long()))
+                seqd.append((k, int(name.rsplit('_', 1)[1]), m.eval(var, model_completion=True).as_long(), tid))
         seqd.sort()
-        return dict(events=out, inputs=nd, nondet_sequence=[v for _, _, v in seqd])
+        return dict(events=out, inputs=nd, nondet_sequence=[v for _, _, v, _ in seqd], nondet_by_thread=[[t, v] for _, _, v, t in seqd])
